@@ -66,6 +66,13 @@ func randParams(r *vf.Rng) Params {
 
 const nAcct = 6
 
+// ctxTx: a call of the block-context reader (BLOCKHASH at a chosen depth, NUMBER,
+// COINBASE, TIMESTAMP, GASLIMIT, DIFFICULTY stored and logged)
+func ctxTx(r *vf.Rng, from int) TxIn {
+	d := []uint64{1, 1, 1, 2, 2, 3, 4, 0, 255, 256, 257, uint64(1 + r.Intn(40))}[r.Intn(12)]
+	return TxIn{Kind: "ctx", From: from, Depth: d, Gas: 400000, Price: uint64(16*(1+r.Intn(4)) + from)}
+}
+
 func randTx(r *vf.Rng, nv int) TxIn {
 	from := r.Intn(nAcct)
 	t := TxIn{From: from, Price: uint64(16*(1+r.Intn(4)) + from), Gas: 300000}
@@ -119,6 +126,9 @@ func randTx(r *vf.Rng, nv int) TxIn {
 		t.Kind, t.Name = "bad", r.Intn(200)
 	default:
 		t.Kind, t.Val = "badaction", val
+	}
+	if r.Chance(6) {
+		t = ctxTx(r, from)
 	}
 	if r.Chance(3) {
 		t.NonceDelta = 1 + r.Intn(2) // a gap: stays queued in the pool
@@ -375,6 +385,22 @@ func randHistory(r *vf.Rng, maxBlocks int) *History {
 		case x < 45:
 			f.Unprepared = "raw"
 		}
+		// block-context readers in both branches at the same heights
+		for j := 0; j < na || f.At+j < nb; j++ {
+			if !r.Chance(75) {
+				continue
+			}
+			t := ctxTx(r, r.Intn(nAcct-1))
+			if r.Chance(60) {
+				t.Depth = uint64(1 + r.Intn(j+1)) // reaches into the fork
+			}
+			if j < na {
+				f.Blocks[j].Txs = append(f.Blocks[j].Txs, t)
+			}
+			if f.At+j < nb {
+				h.Blocks[f.At+j].Txs = append(h.Blocks[f.At+j].Txs, t)
+			}
+		}
 		h.Fork = f
 		h.SideE = ""
 	}
@@ -538,6 +564,7 @@ func judge(h *History, obs []*BlockObs, crashed string, v *verdicts) {
 			default:
 				v.counts["fork_histories"]++
 				v.counts["fork_side_chain_blocks"] += fo.SideBlocks
+				v.counts["fork_sibling_executions"] += fo.SiblingRuns
 				v.counts["fork_confirmed_evidences"] += fo.Confirmed
 				v.counts["fork_alt_branch_txs"] += fo.StakingTxs
 				if fo.AltCrash != "" {
@@ -546,7 +573,7 @@ func judge(h *History, obs []*BlockObs, crashed string, v *verdicts) {
 			}
 			for _, p := range fo.Problems {
 				v.counts["fork_problem"]++
-				add(&v.hits, "two branches from a common ancestor: the importing node does not end with the builder's longer branch, states and receipts", o, p)
+				add(&v.hits, "two branches from a common ancestor: a block's execution depends on the node's pre-history, or the importing node does not end with the builder's longer branch, states and receipts", o, p)
 			}
 			if fo.UnpreparedMode != "" {
 				switch {
